@@ -231,6 +231,31 @@ _rc_add_bond = rc.add_bond_real
 _rc_change_enum = rc.change_enum
 
 
+def sibling_use(descs):
+    """descriptors of the OTHER classes of equal length over the very same
+    atom tuples are compared, hashed and mirrored earlier in the process
+    (both parities, so that symmetry images AND mirror images are worked
+    out); nothing of this may influence what follows.  descs: iterable of
+    (class name, atoms, parity)."""
+    import itertools
+    import stereomolgraph.stereodescriptors as sd
+    fam = {5: ("Tetrahedral", "SquarePlanar"),
+           6: ("AtropBond", "PlanarBond", "TrigonalBipyramidal")}
+    for d in descs:
+        for name_ in fam.get(len(d[1]), ()):
+            if name_ == d[0]:
+                continue
+            C_ = getattr(sd, name_)
+            ps = (0,) if name_ in ("SquarePlanar", "PlanarBond") else (1, -1)
+            t_ = tuple(d[1])
+            for q_ in itertools.islice(itertools.permutations(t_[1:]), 4):
+                o_ = t_[:1] + q_
+                for p_, p2_ in itertools.product(ps, ps):
+                    x_ = C_(t_, p_)
+                    x_ == C_(o_, p2_)          # noqa: B015
+                    hash(x_)
+
+
 def pre_use(g, k):
     """read-only uses of a graph before the operation under test (their
     results are discarded): 1 hash, 2 compared as right-hand operand,
